@@ -26,7 +26,7 @@ ASSUMPTIONS = [
 ]
 COMPONENTS = {"real": ["pyxel", "dask.local.get_async", "xarray", "numpy"], "stub": ["thread pool (SimPool)", "process pool semantics", "queue wait"]}
 BUDGET = {"quick": {"n": 96, "wall": 100, "determinism": 4}, "thorough": {"n": 16000, "wall": 1500, "determinism": 12}}
-REQUIRED_REACH = ["readout_times_swept", "variant:calibration", "island_creation_order_varied", "contested_runs", "preempted_runs", "procs_runs", "seed_lock_contended", "reordered_completion"]
+REQUIRED_REACH = ["readout_times_swept", "variant:calibration", "island_creation_order_varied", "contested_runs", "preempted_runs", "procs_runs", "seed_lock_contended", "reordered_completion", "pipeline_seed_zero"]
 
 
 def generate(rng, tier):
@@ -107,6 +107,8 @@ def execute(scn, forced=None):
     sim = par["sim"] or {}
     om = scn["mode"].get("obs_mode", "product")
     stochastic = scn["mode"].get("pipeline_seed") is not None
+    if scn["mode"].get("pipeline_seed") == 0:
+        stats["pipeline_seed_zero"] = 1
     preemptive = scn["sched"]["policy"] in ("preempt", "pct")
     overlap = (par.get("rng") or {}).get("overlap", 0)
     if stochastic and overlap:
